@@ -9,8 +9,10 @@ import datetime as _dt
 import io
 import json
 import os
+import resource
 import signal
 import sys
+import time
 import traceback
 from collections import namedtuple
 
@@ -61,18 +63,36 @@ def _child(spec, script, args, cwd, stdin_fd, out_fd, err_fd, trace_fd, plan, en
         sys.__stdin__, sys.__stdout__, sys.__stderr__ = sys.stdin, sys.stdout, sys.stderr
         os.chroot(sandbox.W)
         os.chdir("/")
-        os.chdir(cwd)
+        try:
+            os.chdir(cwd)
+        except OSError as e:
+            if e.errno != 36:   # ENAMETOOLONG: a working directory deeper than PATH_MAX
+                raise
+            for c in cwd.split("/"):
+                if c:
+                    os.chdir(c)
         env = dict(spec.get("env", {}))
         env.update(env_extra or {})
         env = {k: v for k, v in env.items() if v is not None}
+        tz = spec.get("tz")       # hours east of UTC (may be fractional) or None
+        if tz is not None:
+            # POSIX TZ string (needs no zoneinfo files): "VTZ-9" is UTC+9, "VTZ8" is UTC-8
+            a = abs(tz)
+            env.setdefault("TZ", "VTZ%s%d:%02d" % ("-" if tz > 0 else "", int(a), int(round((a - int(a)) * 60))))
         os.environ.clear()
         os.environ.update(env)
+        time.tzset()
         os.umask(spec.get("umask", 0o022))
         uid = spec.get("uid", 1000)
         if "TRASH_PUT_FAKE_UID_FOR_TESTING" not in env and not spec.get("no_fake_uid_env"):
             pass  # put reads os.getuid() (patched) when the variable is unset
         vols = ["/"] + list(spec.get("vols", []))
-        shim.set_world(spec.get("partitions", vols), uid, parse_now(spec.get("now", "2020-02-02T02:02:02")))
+        shim.set_world(spec.get("partitions", vols), uid, parse_now(spec.get("now", "2020-02-02T02:02:02")),
+                       int((tz or 0) * 3600))
+        if plan and plan.get("nofile"):
+            # a small descriptor table: leaked descriptors become EMFILE
+            resource.setrlimit(resource.RLIMIT_NOFILE,
+                               (plan["nofile"], resource.getrlimit(resource.RLIMIT_NOFILE)[1]))
         sys.argv = [os.path.join(shim.repo_dir, script)] + list(args)
         signal.alarm(int(plan.get("alarm", 30)) if plan else 30)
         opsim.arm(plan, trace_fd)
